@@ -167,6 +167,13 @@ where
     T: Real + RealAngle + Into<f64> + Powi + Mul<Output = T> + Clone,
 {
     fn from_color_unclamped(color: Hsluv<Wp, T>) -> Self {
+        // The max chroma is degenerate for black, and may end up as NaN or
+        // infinity. The chroma is set to zero, like in the HSLuv reference
+        // implementation.
+        if color.l.clone().into() < 1e-8 {
+            return Lchuv::new(color.l, T::from_f64(0.0), color.hue);
+        }
+
         // Apply the given saturation as a percentage of the max
         // chroma for that hue.
         let max_chroma =
